@@ -172,6 +172,13 @@ type obs struct {
 	// public API
 	P, Q     [NS][]*token // Content(): pending / queued per sender, in the order returned
 	P2       [NS][]*token // Pending()
+	// the consumers' views of the offer (what the proposer and the RPC layer actually read)
+	P3       [NS][]*token // GetPendingData(): the pre-Galaxias proposer's flat list, split per sender in list order
+	p3n      int          // len(GetPendingData())
+	P4, Q4   [NS][]*token // ContentFrom(addr)
+	pendSize int          // PendingSize()
+	drain    []*token     // Pending() drained through types.NewTransactionsByPriceAndNonce with Shift only (the Galaxias proposer's iteration)
+	drainErr string       // a violation of the iterator's own contract met while draining
 	foreign  string       // anything in Content()/Pending() that is not a known token under its own sender
 	locals   [NS]bool     // Locals()
 	gasPrice int64        // GasPrice()
@@ -214,6 +221,26 @@ func (w *world) observe() *obs {
 	conv(q, &o.Q, "Content.queued")
 	p2, _ := w.pool.Pending()
 	conv(p2, &o.P2, "Pending")
+	flat := w.pool.GetPendingData()
+	o.p3n = len(flat)
+	for _, tx := range flat {
+		if t := tokenByHash[tx.Hash()]; t != nil {
+			o.P3[t.sender] = append(o.P3[t.sender], t)
+		} else {
+			o.foreign = "GetPendingData: unknown transaction " + tx.Hash().Hex()
+		}
+	}
+	for s := 0; s < NS; s++ {
+		cp, cq := w.pool.ContentFrom(addrs[s])
+		for _, tx := range cp {
+			o.P4[s] = append(o.P4[s], tokenByHash[tx.Hash()])
+		}
+		for _, tx := range cq {
+			o.Q4[s] = append(o.Q4[s], tokenByHash[tx.Hash()])
+		}
+	}
+	o.pendSize = w.pool.PendingSize()
+	o.drainOffer(w)
 	for _, a := range w.pool.Locals() {
 		if s, ok := addrIndex[a]; ok {
 			o.locals[s] = true
@@ -238,6 +265,53 @@ func (w *world) observe() *obs {
 		}
 	}
 	return o
+}
+
+// drainOffer walks a fresh Pending() map the way the Galaxias proposer does (block_constructor.go organizeTransactions:
+// types.NewTransactionsByPriceAndNonce under the chain's latest signer, Peek / Shift until empty) and records the order.
+// At every step the emitted transaction must be a current head (the lowest not yet emitted nonce of its sender) and no
+// other sender's head may carry a strictly higher price.
+func (o *obs) drainOffer(w *world) {
+	m, _ := w.pool.Pending()
+	var left [NS][]*token
+	for a, txs := range m {
+		s, ok := addrIndex[a]
+		if !ok {
+			continue
+		}
+		for _, tx := range txs {
+			if t := tokenByHash[tx.Hash()]; t != nil {
+				left[s] = append(left[s], t)
+			}
+		}
+	}
+	it := types.NewTransactionsByPriceAndNonce(types.LatestSigner(configs.TestChainConfig), m)
+	for n := 0; n < 4*len(tokens)+4; n++ {
+		tx := it.Peek()
+		if tx == nil {
+			return
+		}
+		t := tokenByHash[tx.Hash()]
+		if t == nil {
+			o.drainErr = "iterator emitted an unknown transaction " + tx.Hash().Hex()
+			return
+		}
+		if len(left[t.sender]) == 0 || left[t.sender][0] != t {
+			if o.drainErr == "" {
+				o.drainErr = fmt.Sprintf("iterator emitted %s which is not the next transaction of %s (remaining [%s])", t.name, senderNames[t.sender], tokNames(left[t.sender]))
+			}
+		} else {
+			left[t.sender] = left[t.sender][1:]
+		}
+		for s := 0; s < NS; s++ {
+			if s != t.sender && len(left[s]) > 0 && left[s][0].price > t.price && o.drainErr == "" {
+				o.drainErr = fmt.Sprintf("iterator emitted %s (price %d) while %s (price %d) was available", t.name, t.price, left[s][0].name, left[s][0].price)
+			}
+		}
+		o.drain = append(o.drain, t)
+		it.Shift()
+	}
+	o.drainErr = "iterator does not terminate"
 }
 
 func (o *obs) has(t *token) (pending, queued bool) {
